@@ -14,6 +14,13 @@ from datetime import datetime, timedelta
 
 import numpy as np
 
+import concurrent.futures as _cf
+import os
+
+from sim.kernel import Sim, make_policy, StepCap, Deadlock
+from sim.executors import (SimPoolBase, SimThreadPool, SimProcessPool,
+                           sim_as_completed, sim_wait)
+from sim.linepreempt import LinePreempt
 from sim.runner import new_result
 from sim.seams import patched, import_typhon
 from sim import digest_of
@@ -67,7 +74,8 @@ def setup():
     import typhon.constants as cst
     from typhon.collocations import Collocator
     import xarray as xr
-    _T.update(gmod=gmod, Collocator=Collocator, xr=xr,
+    import typhon.collocations.collocator as cmod
+    _T.update(gmod=gmod, Collocator=Collocator, xr=xr, cmod=cmod,
               R=float(cst.earth_radius) / 1000.0)
     from sim.seams import typhon_state
     _T["state"] = typhon_state()
@@ -202,6 +210,10 @@ def gen_workload(tape):
             c["window"] = None
         calls.append(c)
     w["calls"] = calls
+    # the (documented, so far unused) threads argument of Collocator
+    w["threads"] = tape.pick([None, None, 2, 3], "threads")
+    w["line_points"] = [1 + tape.choice(150, "linegap") for _ in range(8)] \
+        if bigrun and w["threads"] else []
     w["perm"] = tape.pick(["random", "reverse", "identity", "rot1"], "perm")
     w["perm_seed"] = tape.choice(10 ** 6, "permseed")
     return w
@@ -243,12 +255,35 @@ def run_one(tape, only=None):
             return np.roll(np.arange(k), -1)
         return np.random.RandomState(w["perm_seed"]).permutation(k)
 
-    coll = _T["Collocator"]()
+    coll = _T["Collocator"](threads=w["threads"])
     prev = None
     history = []
     live = {}          # pool index -> (dataset, flat arrays) kept alive between calls
-    with patched((gmod, "np", NpProxy(chooser))), warnings.catch_warnings():
-        warnings.simplefilter("ignore")
+    # collocate() is sequential today; should it ever use a pool (the threads
+    # argument is documented), the pool is the simulator's and its workers can
+    # be pre-empted between two lines of typhon's own code
+    cmod = _T["cmod"]
+    seams = [(gmod, "np", NpProxy(chooser))]
+    for mod in (cmod, _cf):
+        for name, fake in (("ThreadPoolExecutor", SimThreadPool),
+                           ("ProcessPoolExecutor", SimProcessPool),
+                           ("as_completed", sim_as_completed), ("wait", sim_wait)):
+            if mod is _cf or hasattr(mod, name):
+                seams.append((mod, name, fake))
+    sim = Sim(tape, make_policy(tape, allow=("random", "sticky")), step_cap=200000)
+    SimPoolBase.sim, SimPoolBase.registry = sim, []
+    if w["line_points"]:
+        pts, acc = [], 0
+        for g in w["line_points"]:
+            acc += g
+            pts.append(acc)
+        repo = os.path.dirname(os.path.dirname(os.path.abspath(cmod.__file__)))
+        sim.line_preempt = LinePreempt(sim, [
+            os.path.join(repo, "collocations", "collocator.py"),
+            os.path.join(repo, "geographical.py")], pts)
+
+    def _calls():
+        nonlocal prev, nontrivial
         for k, c in enumerate(w["calls"]):
             mode = c["mode"]
             pi, si = c["p"], c["s"]
@@ -408,6 +443,21 @@ def run_one(tape, only=None):
                                        f"{desc}: pair {(a, b)} distance {dist[n_]} km, "
                                        f"actual {D[i, j]} km"))
                         break
+
+    try:
+        with patched(*seams), warnings.catch_warnings():
+            warnings.simplefilter("ignore")
+            try:
+                sim.run(_calls)
+            except StepCap as e:
+                V.append(_viol("C04/no-termination", str(e)))
+            except Deadlock as e:
+                V.append(_viol("C04/deadlock", str(e)))
+    finally:
+        SimPoolBase.sim = None
+        SimPoolBase.registry = None
+    if sim.line_preempt is not None and sim.line_preempt.fired:
+        probe("line_preemptions_in_pool_workers")
     seen, uniq = set(), []
     for v in V:
         if v["signature"] not in seen:
